@@ -16,6 +16,5 @@ open Biogo.Properties.C03_feat
 #print axioms gff_rejects_region_start_zero
 #print axioms gff_rejects_bad_strand
 #print axioms gff_rejects_incomplete_metaline
-#print axioms source_guards_as_modelled
 #print axioms date_parse_format
 #print axioms date_layout_examples
